@@ -346,6 +346,8 @@ class Lowerer:
         for s, info in groups["log"]:
             out.append("(=> %s (>= %s 0.0))" % (arg_cmp_const(info, ">=", "1.0"), s))
             out.append("(=> %s (<= %s 0.0))" % (arg_cmp_const(info, "<=", "1.0"), s))
+            out.append("(=> %s (> %s 0.0))" % (arg_cmp_const(info, ">", "1.0"), s))
+            out.append("(=> %s (< %s 0.0))" % (arg_cmp_const(info, "<", "1.0"), s))
         for s, info in groups["pow"]:
             out.append("(=> %s (>= %s 1.0))" % (arg_cmp_const(info, ">=", "1.0"), s))
             out.append("(=> %s (<= %s 1.0))" % (arg_cmp_const(info, "<=", "1.0"), s))
